@@ -433,6 +433,18 @@ func coreMonitors(out *Out, h int, e *Env, ix *coreIx, d *coreDump, markets []*c
 		}
 	}
 
+	// ---- C07: a market reaches a resolved status only through a resolution message that succeeded
+	for _, m := range d.markets {
+		if !isResolvedStatus(m.Status) {
+			continue
+		}
+		for _, hm := range markets {
+			if hm.uid == m.UID && !hm.resolved {
+				failOnce(out, h, "C07", "resolved_only_by_resolution", "status-moved-without-resolve", m.UID, fmt.Sprintf("market %d has status %v (resolution ts %d, winners %v) although no resolution message for it succeeded", uidN(m.UID), m.Status, m.ResolutionTS, m.WinnerOddsUIDs))
+			}
+		}
+	}
+
 	// ---- C08: index invariant (count, ids, pending xor settled)
 	if uint64(len(d.bets)) != e.App.BetKeeper.GetBetStats(e.Ctx).Count {
 		failOnce(out, h, "C08", "count_eq", "bet-index", "", fmt.Sprintf("bet count %d, bets %d", e.App.BetKeeper.GetBetStats(e.Ctx).Count, len(d.bets)))
